@@ -102,7 +102,8 @@ def r13(text, ctx):
                         break
                     j += 1
                 expr = text[toks[i + 2].start:toks[j - 1].end]
-                edits.append((t.start, toks[j - 1].end, '%s.push_str(%s)' % (name, expr)))
+                semi = '' if (j < len(toks) and toks[j].text == ';') else ';'
+                edits.append((t.start, toks[j - 1].end, '%s.push_str(%s)%s' % (name, expr, semi)))
         n += len(edits)
         text = toks_replace(text, edits)
     return text, n
@@ -286,3 +287,74 @@ def r22(text, ctx):
         return 'verif_io_error_new('
     out = re.sub(r'\b(?:std::)?io::Error::new\s*\(', sub, text)
     return out, n
+
+
+@rule('R2', '`fn f(mut self, ..) { B }` -> `fn f(self, ..) { let mut self_ = self; B[self -> self_] }` (desugaring; Verus rejects `mut self`)')
+def r2(text, ctx):
+    if '\x00' not in text:
+        return text, 0
+    sig, body = text.split('\x00')
+    m = re.search(r'\(\s*mut\s+self\b', sig)
+    if not m:
+        return text, 0
+    sig = sig[:m.start()] + '(self' + sig[m.end():]
+    toks = lex(body)
+    edits = []
+    for t in toks:
+        if t.kind == 'ident' and t.text == 'self':
+            edits.append((t.start, t.end, 'self_'))
+    body = toks_replace(body, edits)
+    body = '{ let mut self_ = self;' + body[1:]
+    return sig + '\x00' + body, 1
+
+
+@rule('R23', '`X.into()` where X is a parameter declared `impl Into<String>` -> `verif_into_string(X)` (external_body wrapper around the same call with the assumed spec `r@ == into_string_view(X)`)')
+def r23(text, ctx):
+    if '\x00' not in text:
+        return text, 0
+    sig, body = text.split('\x00')
+    names = re.findall(r'\b([A-Za-z_][A-Za-z0-9_]*)\s*:\s*impl\s+Into\s*<\s*String\s*>', sig)
+    n = 0
+    for nm in names:
+        body, c = re.subn(r'\b%s\s*\.\s*into\s*\(\s*\)' % re.escape(nm), 'verif_into_string(%s)' % nm, body)
+        n += c
+    return sig + '\x00' + body, n
+
+
+@rule('R24', '`S[range]` on a String-typed local S -> `S.as_str()[range]` (this is the body of std `impl<I: SliceIndex<str>> Index<I> for String`); item-level rulearg R24 <ident>')
+def r24(text, ctx):
+    names = ctx.rule_args.get('R24', [])
+    n = 0
+    for nm in names:
+        toks = lex(text)
+        edits = []
+        for i, t in enumerate(toks):
+            if t.kind == 'ident' and t.text == nm and i + 1 < len(toks) and toks[i + 1].text == '[' and (i == 0 or toks[i - 1].text not in ('.', '::')):
+                k = match_close(toks, i + 1)
+                inner = text[toks[i + 1].end:toks[k].start]
+                if '..' in inner:
+                    edits.append((t.end, t.end, '.as_str()'))
+        n += len(edits)
+        text = toks_replace(text, edits)
+    return text, n
+
+
+@rule('R25', '`X.rsplitn(N, C)` -> `verif_rsplitn(&X, N, C)` returning std::vec::IntoIter<&str> (drops laziness of RSplitN; external_body with assumed spec rsplitn_spec)')
+def r25(text, ctx):
+    n = 0
+    while True:
+        toks = lex(text)
+        hit = None
+        for i, t in enumerate(toks):
+            if t.kind == 'ident' and t.text == 'rsplitn' and i >= 2 and toks[i - 1].text == '.' and toks[i + 1].text == '(' and toks[i - 2].kind == 'ident':
+                hit = i
+                break
+        if hit is None:
+            break
+        i = hit
+        k = match_close(toks, i + 1)
+        recv = toks[i - 2]
+        args = text[toks[i + 1].end:toks[k].start]
+        text = text[:recv.start] + 'verif_rsplitn(&%s, %s)' % (recv.text, args) + text[toks[k].end:]
+        n += 1
+    return text, n
